@@ -165,7 +165,7 @@ def candidates(name, cfg, inst):
     if name in ("op", "pctsp", "spctsp"):
         return cand_subsets(cfg["n"])
     if name == "sdvrp":
-        return cand_sdvrp(inst)
+        return cand_sdvrp(inst, cfg.get("vc", 1.0))
     if name == "smtwtp":
         return [list(p) for p in itertools.permutations(range(1, cfg["n"] + 1))]
     if name == "flp":
